@@ -395,7 +395,12 @@ func TestVerif_C18_Mutex(t *testing.T) {
 			}
 			if len(res.unlockErrs) == 0 {
 				if ks, err := c18LockKeys(cli, name); err == nil && len(ks) > 0 {
-					r.Violation("mutex:lock-key-left-after-unlock:"+cfg, detail(map[string]interface{}{"keys": ks}))
+					sig := "mutex:lock-key-left-after-unlock:" + cfg
+					if len(res.lockErrs) > 0 {
+						// some Lock call failed (10 s request timeout under load): the key belongs to a failed acquisition
+						sig = "mutex:timed-out-lock-left-etcd-key:" + cfg
+					}
+					r.Violation(sig, detail(map[string]interface{}{"keys": ks, "lock_errors": res.lockErrs}))
 					c18Purge(cli, name)
 				}
 			}
